@@ -11,7 +11,7 @@ CLAIMED = {
                 note="same trusted base as C01"),
     "C07": dict(level="model_checking", ref="4/C07", technique="TLA+ trace validation of the real bounds analyzer (hook H1, BoundsTrace) and of published ranges of compiled models (LinTrace) on TLC-generated row sequences",
                 text="TLC generates ordered row sequences (BoundsGen) x step limits; the real analyzer's box, published domain and sub-expression intervals are validated against the specification's exact evaluation on a sample grid; published ranges of compiled models are validated on corpus K.",
-                note="bounds are rounded outward to 1/1024 before crossing to TLC; continuous variables sampled on a grid; hook H1 trusted to call the same functions as the linearizer"),
+                note="variable boxes and published ranges are moved inward onto the 1/1024 grid exactly (membership of a grid sample is decided without tolerance); sub-expression intervals are rounded outward; continuous variables sampled on a grid; hook H1 trusted to call the same functions as the linearizer"),
     "C08": dict(level="model_checking", ref="4/C08", technique="TLA+ trace validation (LinTrace!IllFormed / BadErr) of real Linearizer outputs and errors on TLC-enumerated model families incl. naming corner cases",
                 text="Structural predicate over every compile outcome of corpus K plus family E (duplicate names, $-named user variables, infinite constants, empty aggregations, unbounded operands); guessed constants are excluded semantically by C01 far-point samples.",
                 note="name order is passed as byte-order ranks computed by the harness; finiteness is read from f64::is_finite by the harness"),
@@ -32,7 +32,7 @@ CLAIMED = {
                 note="white-space tokenisation and float parsing of numeric tokens happen in the harness; numbers are compared by sign and bit pattern"),
     "C20": dict(level="model_checking", ref="4/C20", technique="TLA+ trace validation (SolveTrace!DualProblems: exact re-solving of right-hand-side perturbations by Fourier-Motzkin) of Clarabel's reported shadow prices on TLC-generated named-row LPs",
                 text="For every named row whose exact optimum is differentiable in its right-hand side (equal secant slopes over +-1/8, decided by the FM oracle) the reported dual must equal that slope in the user's objective sense; duals only for named rows, exactly one each.",
-                note="duals snapped to small rationals within 1e-6; rows with non-unique sensitivities are outside the property and not judged"),
+                note="duals snapped to small rationals within 1e-6; rows with non-unique sensitivities are outside the property and not judged; both doors are exercised (LinearModel, and source text through front end and linearizer); two classes of the text door are known findings"),
     "C15": dict(level="exploration", ref="4/C15", technique="TLA+ trace validation (SolveTrace!LimitsProblems: allowed returns of Call(model, gap, limit), exact optimum by enumeration) of solve_milp_lp_problem_with / builder Microlp under sampled time limits and gaps",
                 text="The set of allowed returns of a call with a gap and a time limit is stated in TLA+ (internal search steps and the timer are existentially quantified); every observed return of the real solver on TLC-generated knapsack and small MILP models must be allowed. Wall-clock firing points are sampled (limits from 0 to 5 ms), not enumerated.",
                 note="timing-dependent paths are sampled; the exact optimum comes from 2^n enumeration inside TLC"),
@@ -44,25 +44,25 @@ CLAIMED = {
                 note="logic operand positions hold logic-typed trees; twin texts are rendered by the driver"),
     "C11": dict(level="model_checking", ref="4/C11", technique="TLA+ trace validation (FormatTrace: idempotence, equal compiled models, value of the formatted expression vs Pratt!Parse of the original tokens) of RoocParser::format on TLC-enumerated expression strings and a program corpus",
                 text="Every expression string TokGen enumerates up to 5 tokens (all parenthesised and implicit-product shapes) plus operator triples and simulated longer strings, and hand-written programs covering blocks, iterations, graphs, indexed/escaped names and all declaration forms, are formatted by the real formatter, formatted again, and compiled before and after; FormatTrace.tla decides parse-ability, idempotence and model equality.",
-                note="programs beyond expressions are a fixed hand-written corpus (17 programs); model equality is record equality of the serialised Model"),
+                note="constant declarations of every literal kind, name forms and uses come from ConstGen.tla; larger programs are a fixed hand-written corpus (17 programs); model equality is record equality of the serialised Model"),
     "C12": dict(level="exploration", ref="4/C12", technique="TLA+ trace validation (RenderTrace: exact comparison of the recompiled linear model by sign and bit pattern, fixed point of the rendering) of Model::to_string / LinearModel::to_string through the whole real front end",
                 text="Models of the corpus-K families (rendered to source first, a third again with magnitudes 1e-9..1e9) and the program corpus are compiled; both renderings are fed back through parser, type checker, transformer and linearizer; RenderTrace.tla compares variables, domains, objective, offset, sense and the multiset of rows exactly and the second rendering with the first. Three degenerate shapes that cannot survive a text round trip literally are classified by the specification and listed as known findings.",
                 note="sampled families, not exhaustive; differences explained by the three KNOWN-SHAPE classes are reported as known findings, any other difference is a violation"),
     "C03": dict(level="exploration", ref="4/C03", technique="TLA+ trace validation (E2ETrace: reference interpreter Sem!Eval with complete enumeration of the declared domains) of RoocSolver + auto_solver on programs rendered from TLC-generated abstract models",
                 text="Abstract models from the generator machine (family G exhaustive, H simulated) over integer and Boolean domains are rendered to source text with minimal parentheses in two spellings and solved through the one-shot entry point; E2ETrace.tla decides satisfiability, feasibility of the returned values, the reported objective and optimality by enumerating every assignment of the declared domains.",
-                note="integer and Boolean domains only (bounded reals are covered compositionally by C01/C02/C05); the renderer is part of the driver"),
+                note="integer and Boolean domains only (the linearization families are re-declared over integer ranges; bounded reals are covered compositionally by C01/C02/C05); the renderer is part of the driver"),
     "C18": dict(level="exploration", ref="4/C18", technique="TLA+ stage machine (Pipeline.tla) as trace specification of all public stages run in child processes under a watchdog, on valid programs, TLA+-generated mutation histories (Mutate.tla), a nesting ladder and byte noise",
                 text="Pipeline.tla states the compiler as a machine whose every stage has exactly the outcomes ok and err, with stage dependencies; each input is run through parse, format, type_check, transform, linearize, standardize and solve in a child process (panics, aborts and hangs are observed) and the recorded stage outcomes must be a behaviour of that machine within the time limit.",
-                note="hangs are observable only as the watchdog limit (4 s per stage); memory safety is out of scope; inputs are sampled"),
+                note="hangs are observable only as the watchdog limit (12 s per stage); memory safety is out of scope; inputs are sampled; widths stay where the dense standard form is a few million entries"),
     "C06": dict(level="model_checking", ref="4/C06", technique="TLA+ reference semantics of iteration/aggregation constructs (Expand.tla: Envs, Unroll) generating program + unrolled twin; TLA+ trace validation (ExpandTrace) of row-for-row equality of the two real compilations",
                 text="Expand.tla defines the meaning of binders (ranges, inclusive ranges, len, arrays, enumerate, nested arrays, graph nodes and edges with weights, dependent bounds), indexed names, coefficients from data and sum/min/max/avg blocks, and prints for every program of its families the text with constructs and the text it unrolls; both are compiled by the real front end and linearizer and must be equal row for row.",
-                note="data is fixed in the specification; the families are enumerated completely, three-row mixes are simulated"),
+                note="data is fixed in the specification; the families (one, enum, graph, prod, logic, sets, scope) are enumerated completely, three-row mixes are simulated; Models are also compared before linearization on sample assignments; the scoping rule (no re-binding of an enclosing name) is part of the specification"),
     "C19": dict(level="model_checking", ref="4/C19", technique="TLA+ trace validation (TypeTrace: classification of transform failures into type-class and data-dependent from the error's own structure) of type_check followed by transform on the complete (position x filler) family of TypeGen.tla",
                 text="TypeGen.tla enumerates every pair of a program position (operand, index, bound, iteration source, function argument, array index, aggregation body, destructuring pattern, declaration bound, logic operand, let body) and a filler of a chosen type; the real type checker and transformer run on each; TypeTrace.tla accepts an event iff acceptance implies that transform succeeds or fails with a data-dependent error.",
-                note="soundness only; three classes of genuine type-checker holes are listed as known findings"),
-    "C16": dict(level="model_checking", ref="4/C16", technique="TLC-enumerated call plans of the builder state machine (Builder.tla) executed against the real ModelBuilder, and TLA+ trace validation (DoorsTrace + Judge) of the answers of five front doors against the abstract model",
+                note="soundness only; five classes of genuine type-checker holes are listed as known findings"),
+    "C16": dict(level="model_checking", ref="4/C16", technique="TLC-enumerated call plans of the builder state machine (Builder.tla) executed against the real ModelBuilder, TLA+ trace validation (DoorsTrace + Judge) of the answers of six front doors against the abstract model, a TLC-checked typed pipe machine (Pipes.tla) whose every run is replayed through PipeRunner, and declaration doors (Decls.tla)",
                 text="Builder.tla states the fluent builder as a machine (with / with_all / objective calls; last objective wins) and TLC enumerates every call plan up to four calls; each sampled abstract model is built through a plan with the real builder (methods and operators) and also compiled from text, from text with API-supplied constants, through the pipe runner and through the one-shot solver. DoorsTrace.tla judges every door's answer by complete enumeration of the domains, compares rows when trees are identical and checks handle / name / eval read-backs.",
-                note="integer and Boolean domains; macros are not exercised (they expand to the same calls)"),
+                note="integer and Boolean domains; the builder is driven both with Expr operands and natively (most specific overloads, sum, list helpers, constraint!); vars!, add_var/add_vars and define are compared by Decls.tla; every pipe sequence up to 8 by Pipes.tla"),
 }
 NOT_YET = {}
 ALL = [f"C{i:02d}" for i in range(1, 21)]
